@@ -600,6 +600,14 @@ func reflectStubs() map[string]StubFn {
 			c.reflectPanic("Elem of " + typeName(t))
 		}
 	})
+	// the universe object itself is opaque: only its type constructors are modelled
+	xt("Universe", func(c *CallCtx, t types.Type) { c.Return(Ptr{Obj: c.ex.alloc(c.st, &StructV{})}) })
+	m["(*github.com/cosmos72/gomacro/xreflect.Universe).PtrTo"] = func(c *CallCtx) {
+		c.Return(XType{T: types.NewPointer(c.args[1].(XType).T)})
+	}
+	m["(*github.com/cosmos72/gomacro/xreflect.Universe).SliceOf"] = func(c *CallCtx) {
+		c.Return(XType{T: types.NewSlice(c.args[1].(XType).T)})
+	}
 	xt("Key", func(c *CallCtx, t types.Type) { c.Return(XType{T: t.Underlying().(*types.Map).Key()}) })
 	xt("Len", func(c *CallCtx, t types.Type) { c.Return(BVC(64, uint64(t.Underlying().(*types.Array).Len()))) })
 	xt("IdenticalTo", func(c *CallCtx, t types.Type) {
